@@ -194,6 +194,26 @@ pub fn check_triple(t: &Triple, acc: Option<&mut Acc>) -> Vec<String> {
             }
             acc.count("c09:follows_channel_update");
         }
+        // both sections in ONE message: collector and channel change together
+        let coll3 = addr20(&cfg.native_prefix, "collector-third");
+        let ch3 = if t.channel == "channel-777" { "channel-778" } else { "channel-777" };
+        let cur_ch = if r.ok { newch.to_string() } else { t.channel.clone() };
+        let upd = json!({"update_config": {
+            "native_chain_config": {"account_address_prefix": cfg.native_prefix, "validator_address_prefix": cfg.val_prefix, "token_denom": NATIVE_DENOM, "validators": sc.validators, "unbonding_period": 10, "staker_address": sc.staker, "reward_collector_address": coll3},
+            "protocol_chain_config": {"account_address_prefix": cfg.prefix, "ibc_token_denom": sc.s, "ibc_channel_id": ch3, "minimum_liquid_stake_amount": "1", "oracle_address": null}}});
+        let r3 = sc.w.exec(&sc.admin.clone(), &sc.q.clone(), &upd.to_string(), &[]);
+        if r3.ok {
+            sc.w.open_channels.insert(ch3.into());
+            for (who, want, what) in [(hook_sender(ch3, &coll3, &t.prefix), true, "new channel + new collector"), (hook_sender(&cur_ch, &coll3, &t.prefix), false, "old channel + new collector"), (hook_sender(ch3, &newcoll, &t.prefix), false, "new channel + old collector")] {
+                let mut w = sc.w.clone();
+                w.mint_raw(&who, &s, 100);
+                let r = w.exec(&who, &sc.q, &json!({"receive_rewards": {}}).to_string(), &[(s.clone(), 100)]);
+                if r.ok != want {
+                    out.push(format!("after changing collector and channel in one UpdateConfig the hook account of ({what}) was {}", if r.ok { "accepted" } else { "rejected" }));
+                }
+            }
+            acc.count("c09:follows_combined_update");
+        }
     }
     out
 }
